@@ -343,7 +343,49 @@ class SyncModel:
                         contains = True
                 if contains:
                     fam = (fam or set()) | self.family(body, t["args"][0])
+        if fam is None and body.kind == "Closure" and body.parent in self.facts.bodies:
+            fam = self._pipeline_family(e)
         self._family[key] = fam
+        return fam
+
+    def _pipeline_family(self, e):
+        """`items.map(|x| IoCommand { kind: IoKind::Write(..) , .. }).for_each(|c| handle.send(c).unwrap())`: the command is
+        built in one closure and sent by a sibling closure of the same iterator chain in the enclosing function"""
+        body = e.body
+        par = self.facts.bodies[body.parent]
+        if not any(r.kind == "agg" and str(r.what).startswith("nomt::io::IoKind::Write") and r.bb == e.bb for r in trace(body, {"l": 0}, deep=True)):
+            return None
+        fam = None
+        for b, t in par.calls():
+            if par.is_cleanup(b) or len(t["args"]) < 2:
+                continue
+            # a consumer call one of whose closure arguments sends its own parameter ...
+            senders = []
+            for a in t["args"][1:]:
+                for r in trace(par, a):
+                    if r.kind == "agg" and r.obj is not None and r.obj.get("ak") == "closure" and r.obj.get("name") in self.facts.bodies and r.obj.get("name") != body.id:
+                        c2 = self.facts.bodies[r.obj["name"]]
+                        for b2, t2 in c2.calls():
+                            if t2.get("callee") == IO_SEND and len(t2["args"]) >= 2 and any(x.kind == "param" and x.what == 2 for x in trace(c2, t2["args"][1])):
+                                senders.append((c2, t2))
+            if not senders:
+                continue
+            # ... and whose receiver is an adapter chain that contains the building closure
+            def chain_has(op, depth=0):
+                if depth > 4:
+                    return False
+                for r in trace(par, op):
+                    if r.kind in ("call", "via") and r.obj is not None:
+                        for x in r.obj.get("args", [])[1:]:
+                            if any(y.kind == "agg" and y.obj is not None and y.obj.get("name") == body.id for y in trace(par, x)):
+                                return True
+                        if r.obj.get("args") and chain_has(r.obj["args"][0], depth + 1):
+                            return True
+                return False
+
+            if chain_has(t["args"][0]):
+                for (c2, t2) in senders:
+                    fam = (fam or set()) | self.family(c2, t2["args"][0])
         return fam
 
     def drains(self, body):
@@ -380,7 +422,7 @@ class SyncModel:
                     out.append(b)
             elif kind == "io":
                 pass
-            if c in self.facts.bodies and c not in (strands_mod.JOIN, strands_mod.SPAWN) and self.facts.bodies[c].crate == "nomt" and kind in ("task", "fsync"):
+            if c in self.facts.bodies and c not in (strands_mod.JOIN, strands_mod.SPAWN) and self.facts.bodies[c].crate == "nomt" and kind in ("task", "fsync", "io"):
                 if c not in stack and self.does_discharge(c, p, stack + (body.id,)) and self.ok_implied(body, b):
                     out.append(b)
         if kind == "io":
